@@ -1,6 +1,6 @@
 #!/bin/bash
 # usage: muttest.sh <patch> <property>...  applies a must-fail patch to /repo, runs the quick checks, restores
-export GOFLAGS=-mod=mod GOPROXY=off GOSUMDB=off GOTOOLCHAIN=local
+export GOFLAGS=-mod=mod GOPROXY=off GOSUMDB=off GOTOOLCHAIN=local GOVC_NO_EVIDENCE=1
 cd /repo || exit 2
 git apply --check "$1" || { echo "PATCH DOES NOT APPLY: $1"; exit 2; }
 git apply "$1"; shift
